@@ -53,7 +53,7 @@ def _nested_keys():
         point(("d1",), "m1", 1.0, run="A"),
         M("close_run", None, run="B"),
         M("checkpoint"),
-        point(("d1",), None, None, run="A"),
+        point(("d1",), "m1", 1.5, run="A"),
         M("close_run", None, run="A"),
     )
 
@@ -99,7 +99,7 @@ def _nonresumable():
         M("wait", None, group="z"),
         M("trigger", "d1", group="t"),
         M("wait", None, group="t"),
-        M("create", None, name="primary"),
+        M("create", None, name="secondary"),
         M("read", "d1"),
         M("save"),
         M("close_run"),
